@@ -64,8 +64,11 @@ func HEncodePure() {
 	vr.Assert("c20.encode-writes-no-payload-state", vr.FrameUnchanged(tok))
 	vr.Assert("c20.msg-unchanged", vr.All(VEqHeader(snap.IKEHeader, m.IKEHeader), VEqPayloadsExact(snap.Payloads, m.Payloads)))
 	keep := append([]byte{}, b1...)
+	pb := append([]byte{}, m.IKEHeader.PayloadBytes...)
 	vr.Havoc(b1)
 	vr.Assert("c20.buf-unreferenced", vr.All(VEqHeader(snap.IKEHeader, m.IKEHeader), VEqPayloadsExact(snap.Payloads, m.Payloads)))
+	// nor does the header's cached payload encoding live in the returned buffer
+	vr.Assert("c20.buf-unreferenced.header-cache", vr.EqBytes(pb, m.IKEHeader.PayloadBytes))
 	b2, err := m.Encode()
 	vr.Assert("c20.encode2.noerr", err == nil)
 	if err != nil {
